@@ -180,7 +180,11 @@ def catalogue():
     ret("numadj", "x > y >= z", BIN(">=", BIN(">", x, y), ID("z")))
 
     # ---- long strings and brackets
-    longs = {"plain": LONG, "ends_rb": LONG_RB, "newlines": LONG_NL, "leading_nl": LONG_LEAD_NL, "inner_rb": LONG_INNER}
+    longs = {"plain": LONG, "ends_rb": LONG_RB, "newlines": LONG_NL, "leading_nl": LONG_LEAD_NL, "inner_rb": LONG_INNER,
+             # long texts with the other white space characters: a carriage return may not be written raw inside a long
+             # bracket (every lexer reads CR / CRLF there as LF), tabs and form feeds may
+             "crlf": "c" * 30 + "\r\n" + "c" * 30, "cr": "d" * 30 + "\r" + "d" * 30, "leading_crlf": "\r\n" + "e" * 60, "tab": "t" * 30 + "\t" + "t" * 30,
+             "formfeed": "f" * 30 + "\x0c" + "f" * 30, "crlf_lines": "http\r\n" * 6 + "0123456789", "vtab": "v" * 30 + "\x0b" + "v" * 30}
     for ln, lv in longs.items():
         L = STR(lv)
         ret("longstr", "%s t[L]" % ln, IDX(t, L))
